@@ -40,6 +40,10 @@ fn run_case(line: &str, known_env: &mut BTreeSet<Vec<u8>>) -> (String, String) {
     if let Some(l) = sx.headed("cmdmatch") {
         return hooks::run_cmdmatch(l);
     }
+    #[cfg(all(feature = "docgen", feature = "autocomplete"))]
+    if let Some(l) = sx.headed("rdoc") {
+        return hooks::run_rdoc(l);
+    }
     let l = match sx.headed("case") {
         Some(l) if l.len() >= 2 => l,
         _ => return ("?".into(), "BADCASE\tnot a case".into()),
@@ -169,6 +173,28 @@ fn run_case(line: &str, known_env: &mut BTreeSet<Vec<u8>>) -> (String, String) {
                     Ok(r) => Ok(show(r)),
                     Err(p) => Ok(format!("PANIC\t{}", to_hex(panic_text(&p).as_bytes()))),
                 }
+            }
+            // documentation: html, markdown and manpage of the whole parser, and the documents handed to the renderers
+            #[cfg(feature = "docgen")]
+            "docs" => {
+                let app = String::from_utf8(hex(&mode[1])?).map_err(|_| "app name is not UTF-8".to_string())?;
+                let guard = |f: &dyn Fn() -> String| -> (String, String) {
+                    let _ = bpaf::verif_hooks::verif_take_doc();
+                    let r = std::panic::catch_unwind(std::panic::AssertUnwindSafe(f));
+                    let d = bpaf::verif_hooks::verif_take_doc();
+                    let ds = match d {
+                        Some(d) => docdump::doc_sexp(&d).unwrap_or_else(|e| format!("(docerr {})", e.replace(' ', "_"))),
+                        None => "NONE".to_string(),
+                    };
+                    match r {
+                        Ok(s) => (to_hex(s.as_bytes()), ds),
+                        Err(_) => ("PANIC".to_string(), ds),
+                    }
+                };
+                let (html, dh) = guard(&|| opts.render_html(app.clone()));
+                let (md, dm) = guard(&|| opts.render_markdown(app.clone()));
+                let (man, dr) = guard(&|| opts.render_manpage(app.clone(), bpaf::doc::Section::General, None, None, None));
+                Ok(format!("DOCS\t{}\t{}\t{}\t{}\t{}\t{}", html, man, dh, dr, md, (dm == dh) as u8))
             }
             "invariant" => {
                 let r = std::panic::catch_unwind(std::panic::AssertUnwindSafe(|| opts.check_invariants(false)));
